@@ -89,3 +89,10 @@ add(
     "Trusts vf/lang.py; each leaf occurs once so the root is multilinear in its entries; roots are ground (all free inputs reduced) so 'the derivative of the root' is unambiguous.",
     "DESIGN.md section 3 C11",
 )
+add(
+    "C15",
+    "exhaustive enumeration of the published op tables as laws over an edge grid (booleans exhaustively) + property-based numeric cases (scalar vs 0-d vs n-d arrays, both operand orders) against numpy",
+    "Every entry of UNITS, DISTRIBUTIVE_OPS, BINARY/SAFE/UNARY inverses and PRODUCT_TO_POWER (about 5000 law instances) is evaluated on scalars and 0-d arrays over its carrier; generated cases compare every unary/binary op on Python scalars, 0-d arrays and arrays of shapes ()...(3,2) with numpy, check logaddexp/logsumexp/log-space and max-plus einsum against exact limits with -inf and near-boundary operands, and that safesub/safediv/reciprocal never produce NaN.",
+    "Trusts numpy ufuncs inside each op's domain; carriers follow the callers (+inf outside the log-space carrier; per-operand dynamic range below the exp underflow range for einsum).",
+    "DESIGN.md section 3 C15",
+)
